@@ -20,13 +20,19 @@ type zzHostOp struct {
 var zzC14Alpha = [][]zzHostOp{
 	{
 		{0, []string{"API.b.co"}}, {0, []string{"{sub}.b.co"}}, {0, []string{"c.d"}}, {1, []string{"api.B.co"}}, {1, []string{"{sub}.b.co"}},
-		{1, []string{"nope"}}, {1, []string{"C.D"}}, {0, []string{"B.co"}},
+		{1, []string{"nope"}}, {1, []string{"C.D"}}, {0, []string{"B.co"}}, {0, []string{"::1"}},
 	},
 	{
 		{0, []string{"a1.e", "b2.e", "c3.e", "D4.e", "e5.e", "f6.e"}}, {0, []string{"{w}.e"}}, {1, []string{"C3.E"}}, {1, []string{"a1.e"}}, {1, []string{"f6.e"}},
 		{1, []string{"{w}.e"}}, {2, nil}, {0, []string{"{n:digit}.e"}},
 	},
+	{ // 2: six literal domains + wildcard, then two domains sharing a first byte come and go (two-level pruning under the indexed root)
+		{1, []string{"fox.e"}}, {1, []string{"FIG.e"}}, {1, []string{"a1.e"}}, {1, []string{"{w}.e"}},
+	},
 }
+
+// zzC14Setup: operations applied before the explored history.
+var zzC14Setup = [][]zzHostOp{nil, nil, {{0, []string{"a1.e", "b2.e", "c3.e", "d4.e", "e5.e", "{w}.e"}}, {0, []string{"fox.e", "fig.e"}}}}
 
 // ZZC14(n): n = alphabet*1000 + depth*100 + max host length.
 func ZZC14(n int) {
@@ -34,8 +40,14 @@ func ZZC14(n int) {
 	hs := NewHosts(false)
 	var model []string // lower-cased live domains
 	digit := false
-	for i := 0; i < n/100%10; i++ {
-		op := alpha[zzv.Choice("op", len(alpha))]
+	nsetup := len(zzC14Setup[n/1000])
+	for i := 0; i < nsetup+n/100%10; i++ {
+		var op zzHostOp
+		if i < nsetup {
+			op = zzC14Setup[n/1000][i]
+		} else {
+			op = alpha[zzv.Choice("op", len(alpha))]
+		}
 		switch op.k {
 		case 0:
 			for _, d := range op.d {
